@@ -147,15 +147,15 @@ def document(row, co, lower, upper):
     elif k == "AXIS_PTS":
         body += (f' /begin RECORD_LAYOUT rl AXIS_PTS_X 1 {dt} INDEX_INCR DIRECT /end RECORD_LAYOUT'
                  f' /begin AXIS_PTS e1 "" 0x0 NO_INPUT_QUANTITY rl 0 {cmname} 2 {lo} {hi} /end AXIS_PTS')
-    elif k in ("AXIS_DESCR_2", "AXIS_DESCR_3"):
+    elif k in ("AXIS_DESCR_2", "AXIS_DESCR_3", "AXIS_DESCR_4", "AXIS_DESCR_5"):
         # the standard axis is the 2nd / 3rd axis; the axes before it are FIX_AXIS; the record layout
         # describes the other positions with a different data type
         n = int(k[-1])
         other = "SBYTE" if dt == "UBYTE" else "UBYTE"
-        names = ["X", "Y", "Z"]
-        rl = " ".join(f"AXIS_PTS_{names[j]} {j + 2} {dt if j == n - 1 else other} INDEX_INCR DIRECT" for j in range(3))
+        names = ["X", "Y", "Z", "4", "5"]
+        rl = " ".join(f"AXIS_PTS_{names[j]} {j + 2} {dt if j == n - 1 else other} INDEX_INCR DIRECT" for j in range(5))
         fix = " ".join("/begin AXIS_DESCR FIX_AXIS NO_INPUT_QUANTITY NO_COMPU_METHOD 2 0 10 FIX_AXIS_PAR 0 1 2 /end AXIS_DESCR" for _ in range(n - 1))
-        ctype = {2: "MAP", 3: "CUBOID"}[n]
+        ctype = {2: "MAP", 3: "CUBOID", 4: "CUBE_4", 5: "CUBE_5"}[n]
         body += (f' /begin RECORD_LAYOUT rl FNC_VALUES 1 UBYTE ROW_DIR DIRECT {rl} /end RECORD_LAYOUT'
                  f' /begin CHARACTERISTIC e1 "" {ctype} 0x0 rl 0 NO_COMPU_METHOD 0 255 {fix}'
                  f' /begin AXIS_DESCR STD_AXIS NO_INPUT_QUANTITY {cmname} 2 {lo} {hi} /end AXIS_DESCR /end CHARACTERISTIC')
@@ -183,8 +183,8 @@ def run(tier, selftest):
     if res.violation:
         rep.violation(f"limits-spec:{res.violation}", "TLC: the decision table of Limits.tla is not well formed", {"kind": "tlc"})
     rows = list(res.prints("CASE"))
-    if len(rows) != 7 * 11 * 12 * 4:
-        vlib.tool_error(f"decision table has {len(rows)} rows, expected 3696")
+    if len(rows) != 9 * 11 * 12 * 4:
+        vlib.tool_error(f"decision table has {len(rows)} rows, expected 4752")
     rng = random.Random(vlib.seed() * 31337 + 12)
     per_row = 40 if thorough else 2
     cases, mo = [], []
